@@ -63,12 +63,16 @@ pub fn judge(s: &str) -> Result<&'static str, (String, String)> {
             if p.name != s {
                 return Err(("parsed name is not the input verbatim".into(), format!("{s:?} -> {:?}", p.name)));
             }
-            // the modifiers are compared as a collection: the property says which components the parsed value
-            // names, not in which order its list holds them (the order has no meaning in snow: psk tokens go to
-            // fixed places, hfs tokens follow e / ee). What the handshake hashes is `name`, compared verbatim above.
-            let canon = |mut v: Vec<Modifier>| {
-                v.sort_by_key(|m| format!("{m:?}"));
-                v
+            // the modifiers are compared in the order the name spells them, except that the order of the psk modifiers
+            // among themselves is not judged: a psk modifier carries its position in itself, so a parser that keeps
+            // them sorted names the same components (what the handshake hashes is `name`, compared verbatim above).
+            // Where a pattern-transforming modifier (fallback, hfs) stands relative to the others is part of how the
+            // name spells the protocol and is compared.
+            let canon = |v: Vec<Modifier>| {
+                let mut psks: Vec<Modifier> = v.iter().filter(|m| matches!(m, Modifier::Psk(_))).cloned().collect();
+                psks.sort_by_key(|m| if let Modifier::Psk(n) = m { *n } else { 0 });
+                let mut it = psks.into_iter();
+                v.into_iter().map(|m| if matches!(m, Modifier::Psk(_)) { it.next().unwrap() } else { m }).collect::<Vec<_>>()
             };
             let ok = p.handshake.pattern.as_str() == w.pattern && canon(mods(&p)) == canon(w.modifiers.clone()) && dh_name(&p) == w.dh && format!("{:?}", p.cipher) == w.cipher && hash_name(&p) == w.hash && kem_name(&p) == w.kem;
             if ok {
